@@ -62,7 +62,7 @@ func init() {
 			{Pkg: wtxmgrPkg, Fn: "ZzC13U1L4", Tiers: "t", Reach: []string{"c13-end"}, Bound: "U1, 4 events"},
 		},
 		Assume:  storeAssume,
-		Outside: "histories longer than the bound; PreviousPkScripts and labels are not asserted",
+		Outside: "histories longer than the bound; transaction labels are not asserted",
 	})
 	reg(&propDef{
 		ID: "C12",
@@ -84,8 +84,8 @@ func init() {
 			{Pkg: wtxmgrPkg, Fn: "ZzC10U3P2", Tiers: "t", Reach: []string{"fault-hit", "c10-end"}, Bound: "U3 (conflicts), pre-states after 2 events"},
 			{Pkg: wtxmgrPkg, Fn: "ZzC10U1P2", Tiers: "t", Reach: []string{"fault-hit", "c10-end"}, Bound: "U1, pre-states after 2 events"},
 			{Pkg: wtxmgrPkg, Fn: "ZzC10U3P3", Tiers: "t", Reach: []string{"fault-hit", "c10-end"}, Bound: "U3, pre-states after 3 events"},
-			{Pkg: waddrmgrPkg, Fn: "ZzC10Mgr0", Tiers: "qt", Reach: []string{"fault-hit", "c10-end", "fault-not-reached"}, Bound: "address manager, fresh unlocked: each of 10 operations (next ext/int, extend, new account, rename, mark used, import key, import script, set synced-to, change passphrase) with the k-th write failing, k symbolic"},
-			{Pkg: waddrmgrPkg, Fn: "ZzC10Mgr1", Tiers: "qt", Reach: []string{"fault-hit", "c10-end"}, Bound: "address manager after one issued address, same 10 operations"},
+			{Pkg: waddrmgrPkg, Fn: "ZzC10Mgr0", Tiers: "qt", Reach: []string{"fault-hit", "c10-end", "fault-not-reached"}, Bound: "address manager, fresh unlocked: each of 19 operations (next ext/int, extend ext/int, new account, new watching-only account, rename, mark used, import private key / public key / script / witness script, set synced-to, set birthday, set birthday block, change passphrase, neuter root key, new scoped key manager, convert to watching-only) with the k-th write failing, k symbolic"},
+			{Pkg: waddrmgrPkg, Fn: "ZzC10Mgr1", Tiers: "qt", Reach: []string{"fault-hit", "c10-end"}, Bound: "address manager after one issued address, same 19 operations"},
 		},
 		Assume:  append([]string{"a failed write is modelled as the walletdb call returning an error without effect; read-side failures and bbolt's own failure modes are not modelled", "address manager part: concrete seed, native crypto, compared with a freshly opened manager (C08's observations)"}, storeAssume...),
 		Outside: "pre-states beyond the listed histories; multiple faults in one operation; wallet-level operations",
